@@ -255,7 +255,14 @@ def oracle(ctx):
             checked += 1
             if len(ctx.failures) > 20:
                 break
-    ctx.oracle_stats = dict(requests_checked=checked)
+    # a frame whose handler raises (virtual clock), then ordinary requests: answered once as addressed
+    raised = 0
+    for h in range(ctx.n(40, 600)):
+        cfg = H.pick_config(rng)
+        g = H.Gen(rng, DEF, cfg[0])
+        prefix = [g.request(list(range(cfg[1], cfg[2] + 1)))[0] for _ in range(rng.randrange(0, 4))]
+        raised += bool(H.check_after_exception(ctx, DEF, cfg, prefix, rng))
+    ctx.oracle_stats = dict(requests_checked=checked, raising_frames_followed_by_requests=raised)
     ctx.evaluations += checked
 
 
@@ -263,6 +270,16 @@ def replay(ctx, obj):
     """re-execute the recorded history and request; True when a failure of the same class is reported again"""
     from simulators.receiver import DEFINITIONS as DEF
     w = obj['witness']
+    if 'after_exception' in obj.get('klass', ''):
+        H.install(H.Recorder(step=1000))
+        system = H.make_system(*w['config'])
+        last = None
+        for seg in w['stream']:
+            last = H.feed(system, seg)
+        if obj['klass'] == 'not_idle_after_exception':
+            return system.msg != ''
+        fr = H.decode_answer(DEF, last[-1][1]) if last and last[-1][0] == 2 else None
+        return not fr or len(fr) != 1
     tag, amin, amax, feeds = w['config']
     rec = H.Recorder(frozen=H.NOW0)
     S = H.install(rec)
